@@ -774,3 +774,140 @@ def rule_sig_dyn_format(text):
         apps.append(_app("R-dyn", text, mm.start(), mm.end(), new, "static dispatch instead of a trait object; same method is called"))
         text = text[:mm.start()] + new + text[mm.end():]
     return text, apps
+
+
+# ---------------------------------------------------------------- scan-loop unit rules
+def rule_boolthen(text):
+    """`C.then(|| E)` -> `(if C { Some(E) } else { None })`"""
+    apps = []
+    while True:
+        m = mask(text)
+        hit = None
+        for dot, op, cl in _method_calls(text, m, "then"):
+            parts = _closure_parts(text[op + 1:cl])
+            if not parts or parts[0] != "":
+                continue
+            rs = _receiver_start(m, dot)
+            recv = text[rs:dot].strip()
+            hit = (rs, cl + 1, "(if %s { Some(%s) } else { None })" % (recv, parts[1]))
+            break
+        if not hit:
+            return text, apps
+        a, b, new = hit
+        apps.append(_app("R-then", text, a, b, new, "definition of bool::then"))
+        text = text[:a] + new + text[b:]
+
+
+def rule_oissome(text):
+    return _option_closure_rule(
+        text, "is_some_and", "R-oissome",
+        lambda e, p, b: "(match %s { Some(%s) => %s, None => false })" % (e, p, b),
+        "definition of Option::is_some_and")
+
+
+def rule_getcopy(text):
+    """`Some(&PAT) = E.get(I)` -> `Some(PAT) = get_copied(&E, I)`"""
+    apps = []
+    while True:
+        m = mask(text)
+        mm = re.search(r"Some\s*\(\s*&\s*(\([^()]*\))\s*\)\s*=\s*(\w+)\s*\.\s*get\s*\(", m)
+        if not mm:
+            return text, apps
+        op = mm.end() - 1
+        cl = match_close(m, op)
+        new = "Some(%s) = get_copied(&%s, %s)" % (text[mm.start(1):mm.end(1)], mm.group(2), text[op + 1:cl].strip())
+        apps.append(_app("R-getcopy", text, mm.start(), cl + 1, new, "Vec::get + a by-reference tuple pattern over Copy fields = the element by value"))
+        text = text[:mm.start()] + new + text[cl + 1:]
+
+
+def rule_hread(text):
+    """`X.hash_table.read(&K, |_, record| Arc::clone(record))` -> `X.hash_table.read_arc(&K)`"""
+    apps = []
+    while True:
+        m = mask(text)
+        hit = None
+        for dot, op, cl in _method_calls(text, m, "read"):
+            args = split_top_level(m[op + 1:cl], text[op + 1:cl], ",")
+            if len(args) < 2:
+                continue
+            args = [args[0], ",".join(args[1:])]   # the closure's own parameter list has commas
+            parts = _closure_parts(args[1])
+            if not parts or not re.fullmatch(r"_\s*,\s*(\w+)", parts[0]):
+                continue
+            r = re.fullmatch(r"_\s*,\s*(\w+)", parts[0]).group(1)
+            if not re.fullmatch(r"Arc\s*::\s*clone\s*\(\s*%s\s*\)" % r, parts[1].strip()):
+                continue
+            hit = (dot, cl + 1, ".read_arc(%s)" % args[0].strip())
+            break
+        if not hit:
+            return text, apps
+        a, b, new = hit
+        apps.append(_app("R-hread", text, a, b, new, "shim: the lookup closure only clones the Arc it is handed"))
+        text = text[:a] + new + text[b:]
+
+
+def rule_chunks(text):
+    """`S.chunks_exact(N).enumerate().all(|(I, T)| BODY)` -> `chunks_all(S, N, |I: usize, T: &[u8]| BODY)`"""
+    apps = []
+    while True:
+        m = mask(text)
+        hit = None
+        for dot, op, cl in _method_calls(text, m, "all"):
+            pre = m[:dot].rstrip()
+            t = re.search(r"\.\s*chunks_exact\s*\(", pre)
+            if not pre.endswith(".enumerate()") and not re.search(r"\.\s*enumerate\s*\(\s*\)$", pre):
+                continue
+            # the chunks_exact call right before .enumerate()
+            calls = [c for c in _method_calls(text, m, "chunks_exact") if c[2] < dot]
+            if not calls:
+                continue
+            cdot, cop, ccl = max(calls, key=lambda c: c[0])
+            if not re.fullmatch(r"\s*\.\s*enumerate\s*\(\s*\)\s*", m[ccl + 1:dot]):
+                continue
+            parts = _closure_parts(text[op + 1:cl])
+            if not parts:
+                continue
+            pm = re.fullmatch(r"\(\s*(\w+)\s*,\s*(\w+)\s*\)", parts[0])
+            if not pm:
+                continue
+            rs = _receiver_start(m, cdot)
+            recv = text[rs:cdot].strip()
+            n = text[cop + 1:ccl].strip()
+            hit = (rs, cl + 1, "chunks_all(%s, %s, |%s: usize, %s: &[u8]| %s)" % (recv, n, pm.group(1), pm.group(2), parts[1]))
+            break
+        if not hit:
+            return text, apps
+        a, b, new = hit
+        apps.append(_app("R-chunks", text, a, b, new, "shim: definition of chunks_exact + enumerate + all (whole chunks only, in order)"))
+        text = text[:a] + new + text[b:]
+
+
+def rule_visitcrc(text):
+    """`S.visit_blocks(A, N, |_, T| { C = crc32c(C, T); true })` -> `S.visit_blocks_crc(A, N, &mut C)`
+    (Verus has no closures that capture by mutable reference)"""
+    apps = []
+    while True:
+        m = mask(text)
+        hit = None
+        for dot, op, cl in _method_calls(text, m, "visit_blocks"):
+            args = split_top_level(m[op + 1:cl], text[op + 1:cl], ",")
+            if len(args) < 3:
+                continue
+            args = [args[0], args[1], ",".join(args[2:]).strip().rstrip(",")]
+            parts = _closure_parts(args[2])
+            if not parts:
+                continue
+            pm = re.fullmatch(r"_\s*,\s*(\w+)", parts[0])
+            if not pm:
+                continue
+            bm = re.fullmatch(r"\{\s*(\w+)\s*=\s*crc32c\s*\(\s*(\w+)\s*,\s*(\w+)\s*\)\s*;\s*true\s*\}", parts[1].strip())
+            if not bm or bm.group(1) != bm.group(2) or bm.group(3) != pm.group(1):
+                continue
+            hit = (dot, cl + 1, ".visit_blocks_crc(%s, %s, &mut %s)" % (args[0].strip(), args[1].strip(), bm.group(1)))
+            break
+        if not hit:
+            return text, apps
+        a, b, new = hit
+        apps.append(_app("R-visitcrc", text, a, b, new,
+                         "shim with visit_blocks' verified contract: the visitor folds crc32c over every chunk and never stops the walk"))
+        text = text[:a] + new + text[b:]
